@@ -90,6 +90,39 @@ def enum_obligations(e: Enum, inv):
     return obs
 
 
+def shell_obligations(s: Struct, inv):
+    """C06: the item shell around the accessors: Copy/Clone, the constants, the constructors and the Default impl exist
+    exactly as the declaration asks (a missing `impl Default` would otherwise only show as a build failure of the proofs)"""
+    fns = impl_fns(inv)
+    main = fns.get((s.name, None), {})
+    consts = {}
+    for it in inv["items"]:
+        if it["kind"] == "impl" and it["self_ty"] == s.name and it.get("trait") is None:
+            for m in it["items"]:
+                if m["kind"] == "const":
+                    consts[m["name"]] = m
+    st = [it for it in inv["items"] if it["kind"] == "struct" and it["name"] == s.name]
+    obs = []
+    attrs = " ".join(st[0]["attrs"]) if st else ""
+    ok = bool(st) and "Copy" in attrs and "Clone" in attrs and len(st[0]["fields"]) == 1 and nows(st[0]["fields"][0]["ty"]) == s.sty
+    obs.append((f"{s.name}/struct-is-Copy-over-one-{s.sty}", ok, None if ok else f"struct item: {st}"))
+    for fn, params in (("raw_value", 0), ("new_with_raw_value", 1)):
+        m = main.get(fn)
+        ok = m is not None and m["const"] and m["vis"] == "pub" and len(m["params"]) == params
+        obs.append((f"{s.name}/{fn}-pub-const", ok, None if ok else f"{fn}: {m}"))
+    ok = "ZERO" in consts and consts["ZERO"]["vis"] == "pub"
+    obs.append((f"{s.name}/ZERO-present", ok, None if ok else "pub const ZERO is missing"))
+    has_default_impl = (s.name, "Default") in fns and "default" in fns[(s.name, "Default")]
+    if s.default is not None:
+        ok = "DEFAULT" in consts and consts["DEFAULT"]["vis"] == "pub"
+        obs.append((f"{s.name}/DEFAULT-present", ok, None if ok else "pub const DEFAULT is missing although a default is declared"))
+        m = main.get("new")
+        ok = m is not None and m["const"] and m["vis"] == "pub" and not m["params"]
+        obs.append((f"{s.name}/new-present", ok, None if ok else f"deprecated new(): {m}"))
+        obs.append((f"{s.name}/impl-Default-present", has_default_impl, None if has_default_impl else "`impl Default` is missing although a default is declared"))
+    return obs
+
+
 def builder_obligations(s: Struct, inv):
     """C14: builder() offered exactly when sound; exact mask chain; build() only on the final mask"""
     fns = impl_fns(inv)
